@@ -3,6 +3,8 @@ package rules
 import (
 	"fmt"
 	"go/types"
+	"os"
+	"sort"
 	"strings"
 
 	"golang.org/x/tools/go/ssa"
@@ -75,15 +77,10 @@ func c08Bounds(p *ana.Prog, r *ana.Result, ts *ana.TaintState) {
 		f := strings.TrimPrefix(ps.Filename, p.Dir+"/")
 		return fmt.Sprintf("%s:%d:%d", f, ps.Line, ps.Column)
 	}
-	provers := map[*ssa.Function]*ana.Prover{}
-	proverOf := func(f *ssa.Function) *ana.Prover {
-		if provers[f] == nil {
-			pr := ana.NewProver(f)
-			pr.PhiLower = func(ph *ssa.Phi) (int64, bool) { return phiLowerBound(f, ph) }
-			provers[f] = pr
-		}
-		return provers[f]
-	}
+	pset := ana.NewProverSet(p.AllFuncs)
+	ana.DebugStable = os.Getenv("C08_STABLE") != ""
+	pset.PhiLower = phiLowerBound
+	proverOf := pset.For
 	// obligations
 	var obls []boundObl
 	for _, f := range ts.Reachable() {
@@ -208,11 +205,10 @@ func c08Bounds(p *ana.Prog, r *ana.Result, ts *ana.TaintState) {
 			continue
 		}
 		pr := proverOf(o.fn)
-		facts := pr.GuardFacts(o.in)
 		all := true
 		var failed ana.ILin
 		for _, g := range o.goals {
-			if !pr.Prove(g, facts) {
+			if !pr.ProveAt(g, o.in) {
 				all = false
 				failed = g
 				break
@@ -220,7 +216,7 @@ func c08Bounds(p *ana.Prog, r *ana.Result, ts *ana.TaintState) {
 		}
 		if all {
 			nProver++
-			r.Ok("C08.bounds", fname, key, posOf(p, o.in), fmt.Sprintf("prover: %d goals follow from %d dominating guard/bounds facts", len(o.goals), len(facts)))
+			r.Ok("C08.bounds", fname, key, posOf(p, o.in), fmt.Sprintf("prover: %d goals follow from dominating guard/bounds facts, value definitions and callee summaries", len(o.goals)))
 			continue
 		}
 		// lift to callers when the failed goals only mention parameters
@@ -228,6 +224,12 @@ func c08Bounds(p *ana.Prog, r *ana.Result, ts *ana.TaintState) {
 			nLifted++
 			r.Ok("C08.bounds", fname, key, posOf(p, o.in), "prover: requirement on the parameters holds at every call site ("+how+")")
 			continue
+		}
+		if os.Getenv("C08_DEBUG") != "" && o.goals != nil {
+			fmt.Fprintf(os.Stderr, "BOUND-FAIL %s %s\n  goal: %s\n", fname, key, failed.String())
+			for _, f := range pr.GuardFacts(o.in) {
+				fmt.Fprintf(os.Stderr, "  fact: %s\n", f.String())
+			}
 		}
 		extra := ""
 		if o.why != "" {
@@ -239,16 +241,24 @@ func c08Bounds(p *ana.Prog, r *ana.Result, ts *ana.TaintState) {
 	r.Floor("C08.bounds.obligations", nObl, 40)
 }
 
-// liftToCallers: re-prove the obligation's goals at every call site of o.fn
-// with parameters replaced by the arguments.
+// liftToCallers: re-prove the obligation's failed goals at every call site of
+// o.fn with the callee's parameter atoms replaced by the arguments. A goal that
+// is not established by facts dominating the call may still hold on every path
+// to it (pathGate).
 func liftToCallers(p *ana.Prog, ts *ana.TaintState, o boundObl, proverOf func(*ssa.Function) *ana.Prover, depth int) (bool, string) {
-	if depth > 2 || o.goals == nil {
+	if depth > 3 || o.goals == nil {
 		return false, ""
 	}
 	callee := o.fn
-	// goals are over atoms; map parameter atoms to call arguments by re-linearising at the call site.
-	// This is done by evaluating the same instruction shape: we need len(param) and param values.
+	cpr := proverOf(callee)
+	var open []ana.ILin
+	for _, g := range o.goals {
+		if depth > 0 || !cpr.ProveAt(g, o.in) {
+			open = append(open, g)
+		}
+	}
 	sites := 0
+	how := map[string]int{}
 	for _, caller := range ts.Reachable() {
 		var calls []ssa.CallInstruction
 		ana.Instrs(caller, func(in ssa.Instruction) {
@@ -263,66 +273,83 @@ func liftToCallers(p *ana.Prog, ts *ana.TaintState, o boundObl, proverOf func(*s
 		for _, c := range calls {
 			sites++
 			pr := proverOf(caller)
-			facts := pr.GuardFacts(c.(ssa.Instruction))
-			for _, g := range o.goals {
-				sub, ok := substitute(g, callee, c, pr)
+			for _, g := range open {
+				sub, ok := pr.ArgLin(g, callee, c.Common().Args)
 				if !ok {
 					return false, ""
 				}
-				if !pr.Prove(sub, facts) {
-					// one more level: caller's own parameters
-					lo := boundObl{fn: caller, in: c.(ssa.Instruction), desc: o.desc, goals: []ana.ILin{sub}}
-					if ok2, _ := liftToCallers(p, ts, lo, proverOf, depth+1); !ok2 {
-						return false, ""
-					}
+				if pr.ProveAt(sub, c.(ssa.Instruction)) {
+					how["guard"]++
+					continue
 				}
+				if pathGate(p, pr, sub, c.(ssa.Instruction)) {
+					how["path-gate"]++
+					continue
+				}
+				lo := boundObl{fn: caller, in: c.(ssa.Instruction), desc: o.desc, goals: []ana.ILin{sub}}
+				if ok2, _ := liftToCallers(p, ts, lo, proverOf, depth+1); !ok2 {
+					return false, ""
+				}
+				how["lifted"]++
 			}
 		}
 	}
 	if sites == 0 {
 		return false, ""
 	}
-	return true, fmt.Sprintf("%d call sites", sites)
+	var hs []string
+	for k, v := range how {
+		hs = append(hs, fmt.Sprintf("%s:%d", k, v))
+	}
+	sort.Strings(hs)
+	return true, fmt.Sprintf("%d call sites; %s", sites, strings.Join(hs, " "))
 }
 
-// substitute rewrites a goal over the callee's parameter atoms into the caller's terms.
-func substitute(g ana.ILin, callee *ssa.Function, c ssa.CallInstruction, pr *ana.Prover) (ana.ILin, bool) {
-	out := ana.ILin{Coef: map[string]int64{}, C: g.C}
-	args := c.Common().Args
-	for atom, coef := range g.Coef {
-		var term ana.ILin
-		found := false
-		for i, prm := range callee.Params {
-			if i >= len(args) {
-				break
-			}
-			switch atom {
-			case prm.Name():
-				t, ok := pr.Int(args[i], 0)
-				if !ok {
-					return out, false
-				}
-				term, found = t, true
-			case "len(" + prm.Name() + ")":
-				t, ok := pr.Len(args[i], 0)
-				if !ok {
-					return out, false
-				}
-				term, found = t, true
-			case "cap(" + prm.Name() + ")":
-				t, ok := pr.Cap(args[i], 0)
-				if !ok {
-					return out, false
-				}
-				term, found = t, true
+// pathGate: every path from the definition of the goal's root value to `at`
+// takes a branch edge whose condition alone establishes goal >= 0 (decided by
+// the path-sensitive CFG search, so flags like `authenticated` are followed),
+// and nothing in between can change the heap fields the goal mentions.
+func pathGate(p *ana.Prog, pr *ana.Prover, goal ana.ILin, at ssa.Instruction) bool {
+	fn := pr.Fn
+	g := &ana.Gate{Name: "establishes:" + goal.String(), Accept: ana.EdgeSet{}}
+	var origins []ssa.Instruction
+	for _, b := range fn.Blocks {
+		n := len(b.Instrs)
+		if n == 0 {
+			continue
+		}
+		iff, ok := b.Instrs[n-1].(*ssa.If)
+		if !ok {
+			continue
+		}
+		for si := range b.Succs {
+			if pr.EdgeProves(b, si, goal) {
+				g.Accept[ana.Edge{From: b, Succ: si}] = true
+				origins = append(origins, iff)
 			}
 		}
-		if !found {
-			return out, false
-		}
-		out = out.Add(term, coef)
 	}
-	return out, true
+	if len(g.Accept) == 0 {
+		return false
+	}
+	for _, o := range origins {
+		if !pr.StableBetween(goal, o, at) {
+			return false
+		}
+	}
+	// start at the latest-defined root register of the goal's atoms (or the entry)
+	var start ssa.Instruction = fn.Blocks[0].Instrs[0]
+	for a := range goal.Coef {
+		if in, ok := pr.RootOf(a).(ssa.Instruction); ok {
+			if in.Block() != nil {
+				start = in
+			}
+		}
+	}
+	target := func(in ssa.Instruction) bool { return in == at }
+	stop := func(in ssa.Instruction) bool { return false }
+	ok, _ := ana.MustPass(fn, start, g, target, stop, nil)
+	return ok
 }
 
 // phiLowerBound: an inductive lower bound of a loop phi: the minimum of its
